@@ -126,7 +126,7 @@ fn judge_history(solver: Solver, hist: &[Op], st: &mut HistStats) {
     let subj = format!("ivp::{}::builder", solver.name());
     let lim = Limits { max_calls: 100_000, max_items: 10_000, extra_next: 3 };
     let mut viols: Vec<vcore::Viol> = vec![];
-    let mut run_variant = |ops: &[Op], tag: &str, viols: &mut Vec<vcore::Viol>, st: &mut HistStats| {
+    let run_variant = |ops: &[Op], tag: &str, viols: &mut Vec<vcore::Viol>, st: &mut HistStats| {
         let out = run_ops::<f64>(solver, DimMode::Static, ops, &[1.0], zero_rhs(), &lim);
         st.runs += 1;
         let ctx = || format!("{} history {:?}", tag, ops);
